@@ -7,6 +7,7 @@ import (
 	"encoding/base64"
 	"encoding/hex"
 	"fmt"
+	"strings"
 
 	"github.com/miekg/dns"
 	"pgregory.net/rapid"
@@ -188,11 +189,23 @@ type longCase struct {
 	ReqMAC  []byte
 	Fudge   uint16
 	Time    uint64
+	AlgName string // the provider's algorithm name as the caller writes it; "" = long-mac.example.
 }
 
 func checkLongMAC(c longCase) error {
 	n := len(c.Msgs)
 	keyL, e := labelsOf(c.KeyName)
+	algName := c.AlgName
+	if algName == "" {
+		algName = "long-mac.example."
+	}
+	algL, ea := labelsOf(algName)
+	if ea != nil {
+		return nil
+	}
+	if strings.Contains(c.KeyName+algName, "\\") {
+		pbt.Class("names-spelled-with-escapes")
+	}
 	if n < 1 || n > 6 || e != nil || c.Extra < -31 || c.Extra > 2000 || c.Fudge < 16 || c.Time <= uint64(c.Fudge)+16 || c.Time >= 1<<47 {
 		return nil
 	}
@@ -200,7 +213,6 @@ func checkLongMAC(c longCase) error {
 		fmt.Sprintf("envelopes=%d", n), fmt.Sprintf("mac-octets=%s", macOctetsClass(32+c.Extra)), fmt.Sprintf("reqmac>64=%v", len(c.ReqMAC) > 64), reqLenClass(len(c.ReqMAC)))
 	var seen [][]byte
 	prov := longProvider{secret: c.Secret, extra: c.Extra, seen: &seen}
-	algL := ref.Labels{[]byte("long-mac"), []byte("example")}
 	prev := c.ReqMAC
 	for i := 0; i < n; i++ {
 		spec := c.Msgs[i]
@@ -212,7 +224,7 @@ func checkLongMAC(c longCase) error {
 		if perr != nil {
 			return nil
 		}
-		m.SetTsig(c.KeyName, "long-mac.example.", c.Fudge, int64(c.Time)+int64(i))
+		m.SetTsig(c.KeyName, algName, c.Fudge, int64(c.Time)+int64(i))
 		out, mac, err := dns.TsigGenerateWithProvider(m, prov, hex.EncodeToString(prev), i > 0)
 		if err != nil {
 			return pbt.Errf("TsigGenerateWithProvider of envelope %d failed: %v (previous MAC %d octets, provider MACs %d octets)", i, err, len(prev), 32+c.Extra)
@@ -265,6 +277,12 @@ func genLongMAC(t *rapid.T) longCase {
 		c.Msgs = append(c.Msgs, msgspec.Gen(t, msgspec.Opts{MaxSmall: 2}))
 	}
 	c.KeyName = wm.EscName(gen.Name(t, gen.NameOpts{MaxLabs: 3, MaxLabel: 8, Plain: true}))
+	if rapid.IntRange(0, 3).Draw(t, "spell") == 0 {
+		// key name and algorithm name as a program may write them (mixed case, \DDD, \c): both enter
+		// the digest in canonical form whatever the spelling
+		c.KeyName = spellTsigName(t, gen.FlipCase(t, gen.Name(t, gen.NameOpts{MaxLabs: 3, MaxLabel: 8, Plain: true})))
+		c.AlgName = spellTsigName(t, gen.FlipCase(t, wm.Name{[]byte("long-mac"), []byte("example")}))
+	}
 	c.Secret = genSecret(t, "secret")
 	// 32 + Extra octets per MAC; negative: a provider whose MACs are shorter than any HMAC (1, 2, 3, 10, 16 octets)
 	c.Extra = rapid.SampledFrom([]int{0, 1, 32, 33, 48, 168, 968, -31, -30, -29, -22, -16}).Draw(t, "extra")
